@@ -858,6 +858,8 @@ class Gen:
         outs = []
         for t in targets:
             how = force or self.pick(["unary", "const", "outer", "binary", "chain"])
+            if how == "chain" and not force and t.dtype in (F32, F64) and "g_function_call" not in self.cfg.get("disable", ()) and self.chance(5):
+                how = "fcall"  # a model-local function that may be called from inside this branch only
             if how == "const":
                 v = sub.const_array(make_array(self.seed(), t.dtype, t.shape, "smallint"), how="init" if force else self.pick(["node", "init"]))
             elif how == "outer":
@@ -868,6 +870,12 @@ class Gen:
             elif how == "unary" and t.dtype in NUMERIC:
                 r = sub.emit(self.pick(["Neg", "Abs", "Identity"]), [t])
                 v = r[0] if r else None
+            elif how == "fcall":
+                r = sub.g_function_call(t)
+                v = r[0] if r else None
+                if v is not None:
+                    self.features.add("function")
+                    self.features.add("function:called_in_branch")
             elif how == "binary" and t.dtype in NUMERIC:
                 c = sub.const_array(make_array(self.seed(), t.dtype, (), "smallint"), how="init" if force else self.pick(["node", "init"]))
                 r = sub.emit(self.pick(["Add", "Mul", "Sub"]), [t, c])
@@ -1049,8 +1057,9 @@ class Gen:
         return self.emit("Loop", [M, cond0] + state, n_out=len(state) + len(scan), subgraph_free=parent_vis, body=body)
 
     # ------------------------------------------------------------------ model-local functions
-    def g_function_call(self):
-        v = self.pick_val(lambda v: v.dtype in (F32, F64))
+    def g_function_call(self, v=None):
+        if v is None:
+            v = self.pick_val(lambda v: v.dtype in (F32, F64))
         if v is None:
             return
         fname = f"F{len(self.functions)}"
